@@ -68,7 +68,9 @@ def structured_corpus():
     chains = ["", "-", "+", "NOT ", "-+", "NOT -", "+NOT ", "- ", "NOT NOT "]
     operands = ["a", "(a b)", "(a)", '"p q"', "[a TO b]", "/r/", "(a OR b)^2", "a~2", '"p q"~3', "(a (b c))",
                 "(-a)", "((a))", "<=3", "TO", "&&", "||", "!"]
-    contexts = ["%s", "f:%s", "x AND %s", "f:(%s)", "f:%s c", "%s^3", "f:%s OR g:%s", "x %s y", "(%s)", "f:( %s )"]
+    contexts = ["%s", "f:%s", "x AND %s", "f:(%s)", "f:%s c", "%s^3", "f:%s OR g:%s", "x %s y", "(%s)", "f:( %s )",
+                # an operand in juxtaposition right after an AND / OR chain (what binds looser than what)
+                "x AND y %s", "x OR y %s", "x AND y %s z", "x OR y AND z %s", "%s x AND y"]
     out = []
     for c in contexts:
         for ch in chains:
@@ -205,6 +207,15 @@ MALFORMED = ["", " ", "\n\t", "(", ")", "(a", "a)", "((a)", "[a TO", "[a TO b", 
              "a~\u0663", "a^\uff12", '"a b"~\u0969', "a~1\u0663", "f:a^2\u0663 c", "a~\u00b2", "a^\u0661.\u0662",
              # TO next to suffixes / fields / comparisons (reserved only inside a range)
              "TO~2", "TO:a", "TO^3", "<TO", ">=TO", "TO TO", "[TO TO a]", "f:TO", "TO~", "a TO~2 b",
+             # a sign and two digits in front of a colon (time-zone look-alikes): the colon is a field separator
+             "count-10:20", "utc+01:30", "k-12:34 x", "f:a-10:20", "2015-12-19T22:30:45-05:00", "x+05:30 AND y",
+             "T12:30", "aT12:30", "T1:30", "T123:45", "T12:3", "T12:30:4", "T12:30:45:50",
+             # ... with the sign as an OPERATOR directly in front of a two-digit field name
+             "-10:20", "+05:30 x", "a:-10:20", "NOT -12:34", "( +08:00 )", "tz:(-05:00 OR +01:00)", "[-10:20 TO 5]",
+             "x -10:2015-01-01T12:30:00", "-10:20:30", "+10:20^2",
+             # a percent sign or braces in the token an error message quotes; mixed spellings of one operator
+             "discount:[10% 20%]", "[10 TO 20 30%]", "[a TO b %s]", "100% (", "%d %s )", "a {0} )", "{x} AND", "%",
+             "a || b OR c", "a AND b && c", "a && b AND c", "a || b || c", "(a || b) && c", "x:(a || b)",
              # several dots in a numeral
              "a~1.0.5", "a^2.0.", "a~1..5", "a^2.50.1", '"a b"~2.0', '"a b"~9007199254740993']
 
